@@ -8,6 +8,8 @@ type Generator interface {
 
 	ParseFlags()
 
+	CommonFlags() *CommonFlags
+
 	LoadPackage(patterns ...string) map[string]*packages.Package
 
 	Generate(gen interface {
